@@ -382,7 +382,7 @@ func drawEdit(rt *rapid.T, proto string) editCase {
 func TestNoiseWireEdits(t *testing.T) {
 	warm()
 	name := t.Name()
-	hx.Check(t, 3000, 60000, 0, func(rt *rapid.T) {
+	hx.Check(t, 3000, 200000, 0, func(rt *rapid.T) {
 		c := drawEdit(rt, pNoise)
 		nt, labels := runEdit(t, rt, c)
 		stats.Case(name, c.key(), nt, labels...)
@@ -396,7 +396,7 @@ func TestNoiseWireEdits(t *testing.T) {
 func TestTLSWireEdits(t *testing.T) {
 	warm()
 	name := t.Name()
-	hx.Check(t, 3000, 60000, 0, func(rt *rapid.T) {
+	hx.Check(t, 3000, 150000, 0, func(rt *rapid.T) {
 		c := drawEdit(rt, pTLS)
 		nt, labels := runEdit(t, rt, c)
 		stats.Case(name, c.key(), nt, labels...)
@@ -471,7 +471,11 @@ func flipExhaustive(t *testing.T, proto string, pairs [][2]string, masks []byte)
 			for idx := 0; idx < n[d]; idx++ {
 				// ECDSA / secp256k1 signatures vary in length by a few bytes between runs
 				for pos := 0; pos < len(fr[d][idx])+4; pos++ {
-					for _, mask := range masks {
+					ms := masks
+					if pos < framing(proto).HeaderLen() {
+						ms = []byte{0x01, 0x02, 0x04, 0x08, 0x10, 0x20, 0x40, 0x80} // every bit of the frame header
+					}
+					for _, mask := range ms {
 						k++
 						if !hx.Mine(k) {
 							continue
